@@ -18,10 +18,17 @@ Definition kind_pair (x y : shape) (nul : bool) : shape :=
 Definition into_oneof (x : shape) (o : bool) (vs : list shape) (oo : bool) : shape :=
   SOneOf (sset_insert (as_non_optional x) (null_if o vs)) oo.
 
-(* Array<t> + Tuple(es) and Tuple(es) + Array<t> (merger.rs:709-738, 1064-1097) *)
+(* insert_flat (merger.rs): a OneOf contributes its variants, anything else its non-optional form *)
+Definition insert_flat (t : shape) (acc : list shape) : list shape :=
+  match t with
+  | SOneOf vs _ => sset_union acc vs
+  | _ => sset_insert (as_non_optional t) acc
+  end.
+
+(* Array<t> + Tuple(es) and Tuple(es) + Array<t> *)
 Definition tuple_array_set (t : shape) (es : list shape) : list shape :=
   fold_left (fun acc e => sset_insert (as_non_optional e) acc) es
-            (sset_insert t (null_if (existsb is_optional es || is_optional t) [])).
+            (insert_flat t (null_if (existsb is_optional es || is_optional t) [])).
 
 (* Tuple + Tuple, per position (merger.rs:1105-1124) *)
 Definition fold_pair (a b : shape) : option shape :=
@@ -117,4 +124,14 @@ Definition merge (vs : list shape) : outcome merr shape :=
   match vs with
   | [] => Err EmptyFile
   | v :: r => Ok (fold_left merger r v)
+  end.
+
+(* hypothesis of the C09 convergence theorem: no Array<Null> node (documents [null,..] and []) *)
+Fixpoint no_null_array (s : shape) : bool :=
+  match s with
+  | SNull | SBool _ | SNumber _ | SString _ => true
+  | SArray t _ => negb (is_null t) && no_null_array t
+  | SObject c _ => forallb (fun p => no_null_array (snd p)) c
+  | SOneOf vs _ => forallb no_null_array vs
+  | STuple es _ => forallb no_null_array es
   end.
